@@ -17,11 +17,12 @@ def toStage (o : DftOut) : Stage :=
 /-- the stage `dft_stage_init` leaves satisfies the count model's `StageWF` whatever `post_peak` the phase transform
     produced: the latency fields (`at < L`, `input_size`) hold by construction, the rest are the shape conditions. -/
 theorem toStage_wf (i : DftIn) (hL : 0 < i.L) (h1 : 1 ≤ (dftStageInit i).numTaps)
-    (h2 : (dftStageInit i).numTaps ≤ i.dftLen) (h3 : i.L ≤ (dftStageInit i).blockLen)
+    (h2 : (dftStageInit i).numTaps ≤ (dftStageInit i).dftLen) (h3 : i.L ≤ (dftStageInit i).blockLen)
     (h4 : dftOutOK (toStage (dftStageInit i)).cfg 0) : (toStage (dftStageInit i)).WF := by
   unfold Stage.WF StageWF
-  show 0 < i.L ∧ 1 ≤ (dftStageInit i).numTaps ∧ (dftStageInit i).numTaps ≤ i.dftLen ∧ (dftStageInit i).clk < i.L ∧
-    i.L ≤ i.dftLen - ((dftStageInit i).numTaps - 1) ∧ (dftStageInit i).isz = (i.dftLen - (dftStageInit i).clk + i.L - 1) / i.L ∧ _
+  show 0 < i.L ∧ 1 ≤ (dftStageInit i).numTaps ∧ (dftStageInit i).numTaps ≤ (dftStageInit i).dftLen ∧ (dftStageInit i).clk < i.L ∧
+    i.L ≤ (dftStageInit i).dftLen - ((dftStageInit i).numTaps - 1) ∧
+    (dftStageInit i).isz = ((dftStageInit i).dftLen - (dftStageInit i).clk + i.L - 1) / i.L ∧ _
   exact ⟨hL, h1, h2, (dft_latency i hL).2, h3, dft_isz i, h4⟩
 
 /-- frames the frequency-domain path reads per block (`divd.quot`, `at` never changes on that path) -/
